@@ -219,6 +219,14 @@ def clearLogs (a : AppState DS) : AppState DS :=
   { a with committed := { log := "", n := 0 }, work := { log := "", n := 0 },
            writeBatch := a.writeBatch.map fun _ => { log := "", n := 0 } }
 
+/-- identity of the `CommitInfo` a vote-extension spec projects to: round and per-validator
+commit (`c`) / absent (`a`) flags — the extensions themselves are not part of the fingerprint -/
+def lcKey (ve : String) : String :=
+  if ve = "none" then "0:none" else
+    let parts := ve.splitOn "/"
+    let flags := (List.range 3).map fun i => if parts.getD (i + 1) "-" = "-" then 'a' else 'c'
+    s!"{parts.headD "0"}:{String.ofList flags}"
+
 def phStr (s : String) : String := if s = "" then "-" else s
 
 def execKind : ExecState → String
@@ -304,7 +312,7 @@ def run (lines : Array String) : Driver.Report := Id.run do
       let fullLen := natOf (inj.getD 0 "0")
       let emptyLen := natOf (inj.getD 1 "0")
       let ve := kv ows "ve"
-      let lc := if ve = "none" then "0:none" else s!"{(ve.splitOn "/").headD "0"}:{"~".intercalate (ve.splitOn "/")}"
+      let lc := lcKey ve
       let (st1, lcid) := st.lcId lc
       st := st1
       -- oracles from the block description (ids of the commitment / ECI byte strings)
